@@ -91,7 +91,7 @@ SubQueryBodyT == <<SelectT>> \o CompoundT \o QueryNoFromT
 \* the trailing comma at the very end of a statement
 SelectTrailingEnd == Tmpl("Select", <<T("SELECT"), L("Results", "SelectItem", ",", 1), VAR(<< <<>>, <<TN(",")>> >>)>>)
 \* ... and of a pipe SELECT that is the last operator of the statement (parseSelectResults is shared)
-PipeSelectTrailT == << Tmpl("PipeSelect", <<T("|>"), T("SELECT"), L("Results", "SelectItem", ",", 1), TN(",")>>) >>
+PipeSelectTrailT == << Tmpl("PipeSelect", <<T("|>"), T("SELECT"), L("Results", "SelectItem", ",", 1), VAR(<< <<>>, <<TN(",")>> >>)>>) >>
 QueryPipeTrailT == << Tmpl("Query", <<N("Query", "QueryPipeBody"), LOPEN("PipeOperators"), LI("Pipe", "", 0), N("", "PipeSelectTrail"), LCLOSE>>) >>
 QueryStatementT == << Tmpl("QueryStatement", <<O("Hint", "Hint"), N("Query", "QueryExpr")>>),
                       Tmpl("QueryStatement", <<N("Query", "SelectTrailingEnd")>>),
